@@ -546,6 +546,28 @@ func (c *ctx) setExpr(e ast.Expr) *setVal {
 			}
 			return &setVal{lit: lit}
 		}
+	case *ast.CallExpr:
+		// append(A, B...) / append(A, k1, k2): the union of the operands
+		if isIdent(x.Fun, "append") && len(x.Args) >= 1 {
+			ts := []KTarget{}
+			first := c.setExpr(x.Args[0])
+			if first.byts {
+				break
+			}
+			ts = append(ts, first.targets()...)
+			for i, a := range x.Args[1:] {
+				if x.Ellipsis.IsValid() && i == len(x.Args)-2 {
+					sv := c.setExpr(a)
+					if sv.byts {
+						return &setVal{set: sUnknown()}
+					}
+					ts = append(ts, sv.targets()...)
+				} else {
+					ts = append(ts, KTarget{K: c.keyExpr(a)})
+				}
+			}
+			return &setVal{lit: ts}
+		}
 	case *ast.SliceExpr:
 		if isIdent(x.X, c.cmdName) && x.Low != nil && !x.Slice3 {
 			if from, ok := intLit(x.Low); ok {
@@ -1018,6 +1040,14 @@ func (c *ctx) assign(lhs []ast.Expr, rhs []ast.Expr, n ast.Node) []Ev {
 				if freshStringSlice(r) {
 					c.setVars[name] = &setVal{set: &KSet{Kind: "var", Name: c.prefix + name}}
 					return append(evs, Ev{Kind: "bind", X: c.prefix + name})
+				}
+				// all := append([]string{a}, keys...): a new variable naming a union
+				if call, ok := r.(*ast.CallExpr); ok && isIdent(call.Fun, "append") && len(call.Args) >= 1 &&
+					!isIdent(call.Args[0], name) && c.assigns[name] <= 1 && c.inLoop == 0 {
+					if _, isSet := c.setVars[name]; !isSet {
+						c.setVars[name] = c.setExpr(r)
+						return evs
+					}
 				}
 				// keys = append(keys, ...)
 				if call, ok := r.(*ast.CallExpr); ok && isIdent(call.Fun, "append") {
